@@ -1,6 +1,6 @@
 (* C02 driver: runs the extracted model on call histories.
    stdin, one case per line:
-     <cfg7bits> <BUF> <eager> | <raw>;<raw>.. | <field>;<field>.. | <call>;<call>..
+     <cfg8bits> <BUF> <eager> [crc] | <raw>;<raw>.. | <field>;<field>.. | <call>;<call>..
        raw   = enc(r|b|t),size,sgn(0|1),foff,hexbytes
        field = R,<raw> | P,<in>,<shift> | L,<in>,<m>,<b> | B,<in>,<bitnum>,<numbits> | M,<a>,<b>
        call  = g,<f>,<start|H>,<n> | s,<f>,<off>,<S|C|E> | t,<f> | c,<f|*> | a,<raw> | r
@@ -118,12 +118,13 @@ let () =
       match String.split_on_char '|' line with
       | [hd; raws; fields; calls] ->
           (match split ' ' hd with
-           | [bits; buf; eager] ->
+           | bits :: buf :: eager :: more ->
                let b i = bits.[i] = '1' in
                let c = { fix_bz_rewind = b 0; fix_bz_eof = b 1; fix_here = b 2; fix_text_pseudo = b 3;
-                         fix_leak = b 4; fix_negseek = b 5; fix_phase_sign = b 6 } in
+                         fix_leak = b 4; fix_negseek = b 5; fix_phase_sign = b 6; fix_bz_err = b 7 } in
                let bUF = z_of_int (int_of_string buf) in
-               let dec = dec_bz2 bUF (eager = "1") in
+               (* optional 4th header token "crc": the stored CRC of the bzip2 stream is wrong *)
+               let dec = if more = ["crc"] then dec_bz2_crc bUF (eager = "1") else dec_bz2 bUF (eager = "1") in
                let d = ref { d_cfg = c; d_raws = List.map parse_raw (split ';' (String.trim raws));
                          d_fields = List.map parse_field (split ';' (String.trim fields)) } in
                let st = ref (init !d) and dead = ref false in
